@@ -105,7 +105,7 @@ TIMED_REQUEST_DIFFS = r"admitted|cancelled|requests present"
 def control_check(prop: str, tier: str, seed: int, *, mon_props: Optional[List[str]] = None,
                   targets: Optional[List[str]] = None, assumptions: Optional[List[str]] = None,
                   level: str = "proof", with_dispatcher: bool = False, with_contention: bool = False,
-                  with_timed: bool = False, with_layout: bool = False) -> int:
+                  with_timed: bool = False, with_layout: bool = False, with_osm: bool = False) -> int:
     """the common shape: theorems about the control model + history correspondence + monitors"""
     v = fw.Verdict(prop, tier, seed, level)
     targets = targets or ([f"Properties.{prop}"] + EXTRA_TARGETS.get(prop, []))
@@ -128,6 +128,11 @@ def control_check(prop: str, tier: str, seed: int, *, mon_props: Optional[List[s
         # the property's clause about the built-in dispatcher: the real Dispatcher on mixed states
         dl = layers.dispatch_layer(seed, DISPATCH_BUDGET[tier])
         corr_ok = use_simple_layer(v, prop, dl, "dispatch", mon_props or [prop]) and corr_ok
+    if with_osm:
+        n_o, steps_o = OSM_BUDGET[tier]
+        ol = layers.hist_layer(seed, n_o, steps_o, OSM_OPTS)
+        extra = extra + [ol]
+        corr_ok = use_hist_layer(v, prop, ol, mon_props or [prop]) and corr_ok
     ll = None
     if with_layout:
         # the initial layout: generated input files through the real initialisation
@@ -149,7 +154,11 @@ def control_check(prop: str, tier: str, seed: int, *, mon_props: Optional[List[s
     if not ps.ok:
         v.broken(f"proof obligation for {prop}: {ps.failing_obligation()}", {"theorem_or_build": ps.failing_obligation(), "targets": targets})
     v.coverage = {**fw.proof_coverage(ps), **hist_coverage(layer)}
-    if extra:
+    if with_osm:
+        v.coverage["street_graph_records"] = extra[-1]["records"]
+        v.coverage["rule"] = v.coverage.get("rule", "") + (
+            "; plus histories on generated street graphs (real OSMRoadNetwork: routes of several links, steps that end inside links, positions snapped to links)")
+    if with_contention:
         v.coverage["evaluations"] = v.coverage.get("evaluations", 0) + sum(l["records"] for l in extra)
         v.coverage["contention_records"] = sum(l["records"] for l in extra)
         v.coverage["rule"] = v.coverage.get("rule", "") + (
@@ -198,7 +207,7 @@ def check_C02(tier: str, seed: int) -> int:
 
 @register("C07")
 def check_C07(tier: str, seed: int) -> int:
-    return control_check("C07", tier, seed)
+    return control_check("C07", tier, seed, with_osm=True)
 
 
 @register("C10")
@@ -235,6 +244,9 @@ def use_simple_layer(v: fw.Verdict, prop: str, layer: Dict[str, Any], layer_name
 
 
 TRAV_BUDGET = {"quick": 3200, "thorough": 200000}
+# histories on a generated street graph (real OSMRoadNetwork): routes of several links, steps that end inside links
+OSM_OPTS = {"world": {"osm": True}, "hist": {}}
+OSM_BUDGET = {"quick": (48, 25), "thorough": (1500, 50)}
 
 
 @register("C06")
@@ -246,6 +258,9 @@ def check_C06(tier: str, seed: int) -> int:
     n_hist, steps = HIST_BUDGET[tier]
     hl = layers.hist_layer(seed, n_hist, steps)
     ok2 = use_hist_layer(v, "C06", hl, ["C06"])
+    n_o, steps_o = OSM_BUDGET[tier]
+    ol = layers.hist_layer(seed, n_o, steps_o, OSM_OPTS)
+    ok2 = use_hist_layer(v, "C06", ol, ["C06"]) and ok2
     if (not ps.ok or not ok1 or not ok2) and not v.violations:
         big = layers.trav_layer(seed + 7919, TRAV_BUDGET[tier] * 8)
         use_simple_layer(v, "C06", big, "trav", ["C06"])
@@ -253,12 +268,14 @@ def check_C06(tier: str, seed: int) -> int:
     if not ps.ok:
         v.broken(f"proof obligation for C06: {ps.failing_obligation()}", {"theorem_or_build": ps.failing_obligation()})
     cov = {**fw.proof_coverage(ps), **hist_coverage(hl)}
-    cov["evaluations"] = tl["cases"] + hl["records"]
+    cov["evaluations"] = tl["cases"] + hl["records"] + ol["records"]
+    cov["street_graph_records"] = ol["records"]
     cov["distinct_nontrivial"] = len(tl["shapes"])
     cov["rule"] = ("function-level: generated routes (1-6 links, degenerate/closed/disconnected shapes, 6 speeds, ground-truth speeds differing from the estimate, "
-                   "unknown links) × step lengths {1,7,30,60,90,3600} through the real routetraversal.traverse vs the Lean model, the C06 statements evaluated by Lean on the "
-                   "implementation's result; distinct_nontrivial = distinct (route shape, outcome, drove?, left-over?, has degenerate link, dt) tuples; plus the history layer "
-                   "(whole journeys on the haversine network, positions/routes/odometers compared after every phase)")
+                   "unknown links) × step lengths {1,7,30,60,90,3600} through the real routetraversal.traverse AND through the real vehicle_state_ops.move vs the Lean model, the C06 "
+                   "statements evaluated by Lean on the implementation's result; distinct_nontrivial = distinct (route shape, outcome, drove?, left-over?, has degenerate link, dt) tuples; "
+                   "plus the history layer twice: whole journeys on the haversine network, and on generated street graphs (real OSMRoadNetwork: routes of several links, steps ending "
+                   "inside links, snapped positions) - positions/routes/odometers compared after every phase")
     cov["samples"] = [tl["sample"]] + cov.get("samples", [])
     cov["traversal_cases"] = tl["cases"]
     cov["skipped_near_float_boundary"] = tl["skipped_near_boundary"] + hl["skipped_near_boundary"]
